@@ -1,7 +1,8 @@
 (* HexFacts.v — lemmas about Model/Hex.v: hex formatting followed by `from_str_radix` is the identity on the
    whole range of the integer type (a general lemma on digit strings, no enumeration); the Ref and UniqueId
-   text round trips; the refutation of the UniqueId round trip for negative `random` on the pinned code. *)
-From RbxVerif Require Import Hex.
+   text round trips (UniqueId: the current code, every random part; never panics); and, for the record, the
+   refutation of the round trip for negative `random` on the code before /repo commit 680c0119. *)
+From RbxVerif Require Import Hex BytesFacts.
 From Coq Require Import Lia.
 Open Scope N_scope.
 
@@ -155,6 +156,22 @@ Proof.
   rewrite E1, E2. reflexivity.
 Qed.
 
+Lemma parse_digits_no_panic hi ovf s : forall acc, parse_digits hi ovf acc s <> Panic.
+Proof.
+  induction s as [|c r IH]; intros acc; cbn; [discriminate|].
+  destruct (digit_val c); [|discriminate]. destruct (hi <? acc * 16 + n); [discriminate|apply IH].
+Qed.
+Lemma parse_hex_gen_no_panic signed ph nh s : parse_hex_gen signed ph nh s <> Panic.
+Proof.
+  unfold parse_hex_gen. destruct s as [|c r]; [discriminate|].
+  destruct (((c =? 43) || (c =? 45)) && is_nil r); [discriminate|].
+  destruct (c =? 43).
+  - pose proof (parse_digits_no_panic ph PIE_POS r 0). destruct (parse_digits ph PIE_POS 0 r); cbn; congruence.
+  - destruct ((c =? 45) && signed).
+    + pose proof (parse_digits_no_panic nh PIE_NEG r 0). destruct (parse_digits nh PIE_NEG 0 r); cbn; congruence.
+    + pose proof (parse_digits_no_panic ph PIE_POS (c :: r) 0). destruct (parse_digits ph PIE_POS 0 (c :: r)); cbn; congruence.
+Qed.
+
 (* ---- format then parse ---- *)
 Lemma parse_hex_u_fmt bits w n : n < 2 ^ bits -> parse_hex_u bits (fmt_hex w n) = Ok n.
 Proof.
@@ -241,13 +258,58 @@ Proof.
   - unfold uid_display. repeat (apply Forall_app; split); apply fmt_hex_ascii.
 Qed.
 
-Lemma uid_from_str_display index time random :
+Lemma uid_display_ascii index time random :
+  index < 2 ^ 32 -> time < 2 ^ 32 -> (- 2 ^ 63 <= random < 2 ^ 63)%Z -> is_ascii (uid_display index time random) = true.
+Proof.
+  intros Hi Ht Hr. destruct (uid_display_parts index time random Hi Ht Hr) as (_ & _ & _ & Hascii).
+  unfold is_ascii. apply forallb_forall. intros b Hb. rewrite Forall_forall in Hascii. apply N.ltb_lt. now apply Hascii.
+Qed.
+
+Lemma wrap_u64_bound z : wrap_u 64 z < 2 ^ 64.
+Proof.
+  unfold wrap_u. change (Z.of_N 64) with 64%Z.
+  pose proof (Z.mod_pos_bound z (2 ^ 64) ltac:(lia)) as Hb.
+  apply N2Z.inj_lt. rewrite Z2N.id by lia. change (Z.of_N (2 ^ 64)) with (2 ^ 64)%Z. lia.
+Qed.
+
+(* UniqueId text round trip on the current code: EVERY index, time and random *)
+Theorem uid_text_roundtrip : forall index time random,
   index < 2 ^ 32 -> time < 2 ^ 32 -> (- 2 ^ 63 <= random < 2 ^ 63)%Z ->
-  uid_from_str (uid_display index time random) =
+  uid_from_str (uid_display index time random) = Ok (index, time, random).
+Proof.
+  intros index time random Hi Ht Hr.
+  destruct (uid_display_parts index time random Hi Ht Hr) as (Ha & Hb & Hc & _).
+  unfold uid_from_str. rewrite (uid_display_ascii _ _ _ Hi Ht Hr).
+  assert (Hlen : length (uid_display index time random) = 32%nat).
+  { unfold uid_display. rewrite !app_length, Ha, Hb, Hc. reflexivity. }
+  rewrite Hlen. cbn [Nat.eqb andb]. unfold uid_display.
+  rewrite (slice_first _ _ Ha), (slice_mid _ _ _ Ha Hb), (slice_last _ _ _ Ha Hb Hc).
+  rewrite (parse_hex_u_fmt 64 16 _ (wrap_u64_bound random)), (parse_hex_u_fmt 32 8 time Ht), (parse_hex_u_fmt 32 8 index Hi).
+  cbn [rbind]. rewrite BytesFacts.wrap_roundtrip64; [reflexivity|].
+  unfold in_i64. apply andb_true_intro. split; [apply Z.leb_le|apply Z.ltb_lt]; lia.
+Qed.
+
+(* from_str never panics: whatever the bytes (the pre-fix code did, see below) *)
+Theorem uid_from_str_no_panic : forall s, uid_from_str s <> Panic.
+Proof.
+  intros s. unfold uid_from_str. destruct (Nat.eqb (length s) 32 && is_ascii s); [|discriminate].
+  unfold parse_hex_u.
+  destruct (parse_hex_gen false (2 ^ 64 - 1) 0 (slice s 0 16)) as [[? ?]| | |] eqn:E1; cbn [rbind]; try discriminate.
+  - destruct (parse_hex_gen false (2 ^ 32 - 1) 0 (slice s 16 24)) as [[? ?]| | |] eqn:E2; cbn [rbind]; try discriminate.
+    + destruct (parse_hex_gen false (2 ^ 32 - 1) 0 (slice s 24 32)) as [[? ?]| | |] eqn:E3; cbn [rbind]; try discriminate.
+      exfalso. revert E3. apply parse_hex_gen_no_panic.
+    + exfalso. revert E2. apply parse_hex_gen_no_panic.
+  - exfalso. revert E1. apply parse_hex_gen_no_panic.
+Qed.
+
+(* ---- the code before /repo commit 680c0119 ---- *)
+Lemma uid_pre_fix_display index time random :
+  index < 2 ^ 32 -> time < 2 ^ 32 -> (- 2 ^ 63 <= random < 2 ^ 63)%Z ->
+  uid_from_str_pre_fix (uid_display index time random) =
   (r <- parse_hex_i64 (fmt_hex 16 (wrap_u 64 random)) ;; Ok (index, time, r)).
 Proof.
   intros Hi Ht Hr. destruct (uid_display_parts index time random Hi Ht Hr) as (Ha & Hb & Hc & Hascii).
-  unfold uid_from_str.
+  unfold uid_from_str_pre_fix.
   assert (Hlen : length (uid_display index time random) = 32%nat).
   { unfold uid_display. rewrite !app_length, Ha, Hb, Hc. reflexivity. }
   rewrite Hlen. cbn [Nat.eqb].
@@ -266,36 +328,41 @@ Proof.
   symmetry. apply Z.mod_unique with (q := (-1)%Z); lia.
 Qed.
 
-(* UniqueId text round trip: every index, time, and every NON-NEGATIVE random *)
-Theorem uid_text_roundtrip : forall index time random,
+(* it round-tripped the non-negative random parts only ... *)
+Theorem uid_pre_fix_roundtrip : forall index time random,
   index < 2 ^ 32 -> time < 2 ^ 32 -> (0 <= random < 2 ^ 63)%Z ->
-  uid_from_str (uid_display index time random) = Ok (index, time, random).
+  uid_from_str_pre_fix (uid_display index time random) = Ok (index, time, random).
 Proof.
-  intros index time random Hi Ht Hr. rewrite uid_from_str_display by (try assumption; lia).
+  intros index time random Hi Ht Hr. rewrite uid_pre_fix_display by (try assumption; lia).
   rewrite wrap_u_nonneg by lia. rewrite parse_hex_i64_fmt.
   - cbn [rbind]. rewrite Z2N.id by lia. reflexivity.
   - apply N2Z.inj_lt. rewrite Z2N.id by lia. change (Z.of_N (2 ^ 63)) with (2 ^ 63)%Z. lia.
 Qed.
 
-(* ... and on the pinned code EVERY negative random fails: Display prints the two's complement, 16 digits
-   with the top bit set, which i64::from_str_radix rejects as a positive overflow *)
-Theorem uid_text_negative_fails : forall index time random,
+(* ... EVERY negative random failed: Display prints the two's complement, 16 digits with the top bit set, which
+   i64::from_str_radix rejects as a positive overflow (DESIGN F17) ... *)
+Theorem uid_pre_fix_negative_fails : forall index time random,
   index < 2 ^ 32 -> time < 2 ^ 32 -> (- 2 ^ 63 <= random < 0)%Z ->
-  uid_from_str (uid_display index time random) = Err PIE_POS.
+  uid_from_str_pre_fix (uid_display index time random) = Err PIE_POS.
 Proof.
-  intros index time random Hi Ht Hr. rewrite uid_from_str_display by (try assumption; lia).
+  intros index time random Hi Ht Hr. rewrite uid_pre_fix_display by (try assumption; lia).
   rewrite wrap_u_neg by lia. rewrite parse_hex_i64_fmt_big; [reflexivity|].
   apply N2Z.inj_le. rewrite Z2N.id by lia. change (Z.of_N (2 ^ 63)) with (2 ^ 63)%Z. lia.
 Qed.
 
-Theorem uid_text_refuted : exists index time random,
+Theorem uid_pre_fix_refuted : exists index time random,
   index < 2 ^ 32 /\ time < 2 ^ 32 /\ (- 2 ^ 63 <= random < 2 ^ 63)%Z /\
-  uid_from_str (uid_display index time random) <> Ok (index, time, random).
+  uid_from_str_pre_fix (uid_display index time random) <> Ok (index, time, random).
 Proof.
   exists 0, 0, (-1)%Z. repeat split; try lia.
-  assert (E : uid_from_str (uid_display 0 0 (-1)) = Err PIE_POS) by (vm_compute; reflexivity).
+  assert (E : uid_from_str_pre_fix (uid_display 0 0 (-1)) = Err PIE_POS) by (vm_compute; reflexivity).
   rewrite E. discriminate.
 Qed.
+
+(* ... and a 32-byte string with a two-byte character across the random/time boundary panicked *)
+Example uid_pre_fix_panics : uid_from_str_pre_fix (repeat 48 15 ++ [195; 169] ++ repeat 48 15) = Panic
+                          /\ uid_from_str (repeat 48 15 ++ [195; 169] ++ repeat 48 15) = Err ERR_UID_LEN.
+Proof. split; vm_compute; reflexivity. Qed.
 
 (* the text form is 32 bytes of ASCII hex *)
 Theorem uid_display_length : forall index time random,
